@@ -122,6 +122,14 @@ func runCodecCase(c *codecCase, dp *dict.Parser) codecLine {
 				return
 			}
 			l.WBytes = abs.Ints(wb.Bytes())
+			// the public SerializeTo into a caller-owned buffer that is larger than the message
+			big := bytes.Repeat([]byte{0x5A}, gm.Len()+64)
+			if err := gm.SerializeTo(big); err != nil || !bytes.Equal(big[:gm.Len()], b) || int(gm.Header.MessageLength) != len(b) {
+				l.WBytes = abs.Ints(big[:gm.Len()]) // reported through the same comparison as WriteTo
+				if int(gm.Header.MessageLength) != len(b) {
+					l.WBytes = append(l.WBytes, 0) // the header length was altered by the call
+				}
+			}
 			l.Built = true
 		})
 		if p != "" {
@@ -133,9 +141,18 @@ func runCodecCase(c *codecCase, dp *dict.Parser) codecLine {
 		return l
 	}
 	p := safely(func() {
-		rm, err := diam.ReadMessage(bytes.NewReader(wire), dp)
+		// the same message twice in one plain reader: reading the first must leave the second intact
+		rd := bytes.NewReader(append(append([]byte(nil), wire...), wire...))
+		rm, err := diam.ReadMessage(rd, dp)
 		if err != nil {
 			l.Rerr = err.Error()
+			return
+		}
+		if rm2, err := diam.ReadMessage(rd, dp); err != nil {
+			l.Rerr = "second message in the same reader: " + err.Error()
+			return
+		} else if b2, _ := rm2.Serialize(); rd.Len() != 0 || len(b2) == 0 {
+			l.Rerr = "second message in the same reader: bytes left or not serialisable"
 			return
 		}
 		// further traffic before the message is looked at: what was read must not live in a buffer the
@@ -248,6 +265,11 @@ func Codec(a Args) error {
 			} else {
 				m.AVPs = append(m.AVPs, abs.RandAVP(r, vdefs[r.Intn(len(vdefs))], vdefs, 3))
 			}
+		}
+		if i%8 == 3 {
+			// a body larger than the library's 1 KiB read / write buffers
+			big := abs.AVP{Code: abs.B4(9010), Flags: 0x40, Vendor: abs.B4(0), Kind: "octets", Sem: abs.RandBytes(r, 1100+r.Intn(2500)), Kids: []abs.AVP{}}
+			m.AVPs = append(m.AVPs, big)
 		}
 		id++
 		c := codecCase{ID: id, Src: "rand", Dict: "v", M: m}
